@@ -83,6 +83,19 @@ def generate(rng: Rng, n, tier="quick"):
                 {"op": "render", "reg": 0, "api": "render_template", "src": "|" + A + "|", "data": enc(dd)}], "id": "C08-d%03d" % k}
         out.append((c, {"mode": "repeat3", "A": A}))
         k += 1
+    # … pairs under the HTML escape function whose right operand writes characters the function changes: an unescaped tag of every
+    # kind on the left (a value, a helper call with an argument / with a hash, a block inside it) leaves escaping as it found it
+    lefts = ["{{{h}}}", "{{&h}}", "{{{lookup o \"v\"}}}", "{{&lookup o \"v\"}}", "{{{mk 1}}}", "{{{mk k=1}}}", "{{{vr h}}}", "{{{nosuch}}}", "{{{lookup o \"nope\"}}}",
+             "{{#if h}}{{{lookup o \"v\"}}}{{/if}}", "{{{len h}}}"]
+    rights = ["{{h}}", "{{lookup o \"v\"}}", "{{#each hs}}{{this}}{{/each}}", "{{mk h}}"]
+    dh = {"h": "<b>&", "o": {"v": "<i>"}, "hs": ["<", ">"]}
+    for A in lefts:
+        for B in rights:
+            rend = lambda src: {"op": "render", "reg": 0, "api": "render_template", "src": src, "data": enc(dh)}
+            c = {"kind": "session", "regs": [{"escape": "html", "helpers": [{"name": "mk", "kind": "mark", "tag": "M"}, {"name": "vr", "kind": "vret"}]}],
+                 "ops": [rend(A + "|" + B), rend(A + "|"), rend("|" + B)], "id": "C08-d%03d" % k}
+            out.append((c, {"mode": "pair", "A": A}))
+            k += 1
     # … and the same pairs INSIDE the body of a partial called with a block (siblings there share what `@partial-block` denotes)
     inner_ops = ["{{#> inner}}x{{/inner}}", "{{> @partial-block}}", "{{#> inner}}{{> @partial-block}}{{/inner}}", "{{#> slot}}s{{/slot}}", "{{v}}",
                  "{{#> nosuch}}dflt{{/nosuch}}", "{{#> nosuch}}{{#> inner}}n{{/inner}}{{/nosuch}}", "{{#> inner}}{{#> nosuch}}m{{/nosuch}}{{/inner}}",
